@@ -663,7 +663,59 @@ def _generic_guard(prog, res, fn, pa, node, construct, bounds: set, text: Option
     if _whitespace_only(prog, fn, pa, node, bounds):
         res.ok("R20.3", fn.loc(node), fn.fq, construct, "the replaced slice is tested to consist of whitespace only (no comment can be inside)")
         return
+    # idiom (ii): all or nothing - `if any(has_ignore_comment(text, Range(a, b)) for a, b, .. in C): return text` before a loop that
+    # splices the elements of the same C (through sorted / set / reversed / list), with the spliced positions as loop targets
+    if _all_or_nothing(prog, fn, pa, node, bounds, text):
+        res.ok("R20.3", fn.loc(node), fn.fq, construct, "all or nothing: the text is handed back untouched when ANY of the collected ranges is on an annotated line")
+        return
     res.bad("R20.3", fn.loc(node), fn.fq, construct, why + "; an annotated line can be rewritten or deleted here")
+
+
+def _all_or_nothing(prog, fn, pa, node, bounds: set, text) -> bool:
+    if not isinstance(text, ast.Name) or not bounds:
+        return False
+    # the loop that binds the spliced positions
+    lp = parent(node)
+    while lp is not None and not (isinstance(lp, ast.For) and bounds <= {x.id for x in ast.walk(lp.target) if isinstance(x, ast.Name)}):
+        lp = parent(lp)
+    if lp is None or not isinstance(lp.target, ast.Tuple):
+        return False
+    it = lp.iter
+    while isinstance(it, ast.Call) and isinstance(it.func, ast.Name) and it.func.id in ("sorted", "set", "reversed", "list", "tuple") and it.args:
+        it = it.args[0]
+    if not isinstance(it, ast.Name):
+        return False
+    coll = it.id
+    pos_index = {x.id: i for i, x in enumerate(lp.target.elts) if isinstance(x, ast.Name)}
+    for st in ast.walk(fn.node):
+        if not (isinstance(st, ast.If) and st.body and isinstance(st.body[-1], ast.Return) and isinstance(st.body[-1].value, ast.Name)
+                and st.body[-1].value.id == text.id and st.lineno < lp.lineno):
+            continue
+        t = st.test
+        if not (isinstance(t, ast.Call) and isinstance(t.func, ast.Name) and t.func.id == "any" and len(t.args) == 1 and isinstance(t.args[0], ast.GeneratorExp)
+                and len(t.args[0].generators) == 1):
+            continue
+        g = t.args[0].generators[0]
+        if not (isinstance(g.iter, ast.Name) and g.iter.id == coll and isinstance(g.target, ast.Tuple) and not g.ifs):
+            continue
+        elt = t.args[0].elt
+        if not (isinstance(elt, ast.Call) and (prog.dotted(elt.func) or "").split(".")[-1] == "has_ignore_comment" and len(elt.args) == 2
+                and isinstance(elt.args[0], ast.Name) and elt.args[0].id == text.id):
+            continue
+        rng = elt.args[1]
+        if not (isinstance(rng, ast.Call) and (prog.dotted(rng.func) or "").split(".")[-1] == "Range" and len(rng.args) == 2 and all(isinstance(a, ast.Name) for a in rng.args)):
+            continue
+        gidx = {x.id: i for i, x in enumerate(g.target.elts) if isinstance(x, ast.Name)}
+        # the same tuple components are the range of the test and the positions of the splice
+        test_components = {gidx.get(a.id) for a in rng.args}
+        splice_components = {pos_index.get(b) for b in bounds}
+        # the text is not modified between the test and the loop, and the collection is not refilled
+        worlds_if = pa.worlds_at(st)
+        worlds_lp = pa.worlds_at(lp)
+        same_text = bool(worlds_if) and bool(worlds_lp) and {w.token(text.id) for w in worlds_if} == {w.token(text.id) for w in worlds_lp}
+        if None not in test_components and test_components == splice_components and same_text:
+            return True
+    return False
 
 
 def _any_ignore_guard(w):
@@ -756,6 +808,13 @@ def _whitespace_only(prog, fn, pa, node, bounds: set) -> bool:
 from ..selftest import Variant  # noqa: E402
 
 VARIANTS = [
+    Variant("remove-nodes-forgets-ignore-comments", "FIRE", "processing",
+            "    if any(core.has_ignore_comment(source, core.get_charnos(node, source)) for node in nodes):\n        return source  # Code on a line with a pyrefact: ignore comment stays\n\n", "", "R20.3"),
+    Variant("renaming-splices-into-annotated-lines", "FIRE", "fixes",
+            "    if any(core.has_ignore_comment(source, core.Range(start, end)) for start, end, _ in replacements):\n        return source  # All or nothing: a name is not renamed in some places only\n\n", "", "R20.3"),
+    Variant("renaming-skips-annotated-places-one-by-one", "SILENT", "fixes",
+            "    for start, end, substitute in sorted(set(replacements), reverse=True):\n        logger.debug(\"Replacing {old} with {new}\", old=source[start:end], new=substitute)\n",
+            "    for start, end, substitute in sorted(set(replacements), reverse=True):\n        if core.has_ignore_comment(source, core.Range(start, end)):\n            continue\n        logger.debug(\"Replacing {old} with {new}\", old=source[start:end], new=substitute)\n"),
     Variant("stdin-result-printed-with-a-line-break", "FIRE", "main", "        print(source, end=\"\")  # The text as it is, print would add a line break", "        print(source)", "R20.8"),
     Variant("stdin-result-written-to-stdout", "SILENT", "main", "        print(source, end=\"\")  # The text as it is, print would add a line break", "        sys.stdout.write(source)"),
     Variant("ignore-lines-by-str-splitlines", "FIRE", "core", "    for line in split_lines(source):  # A form feed in a string does not end the line, or its comment", "    for line in source.splitlines(keepends=True):", "R20.5"),
@@ -811,7 +870,7 @@ META = {
                    "input and returns it unchanged, that the two opt-out grammars agree, that has_ignore_comment has the "
                    "shape 'True iff some line overlapping the range matches', and that every position-based rebuild of "
                    "the module text is guarded by an ignore-comment test on the same positions (or edits whitespace "
-                   "only). Unguarded direct editors on today's tree are listed as known findings. It does not decide "
+                   "only). The two direct editors that were known findings (remove_nodes, _fix_variable_names) were repaired as all-or-nothing refusals. It does not decide "
                    "what the guarded rewrites do to un-annotated lines."),
     "level_note": "Trusted: CPython ast, re._parser; anchors format_code/has_ignore_comment; text-provenance seeds (first parameter of @processing.fix rules and format_code).",
 }
